@@ -186,6 +186,25 @@ example : (withIgnored exSrc exTree).toOption.map Node.leaves =
     tokenizeIgnored, Node.range, isWS, isLF, notLF, Except.map, toNodes, IgnTok.toNode, Node.leaves, leavesList,
     IgnKind.name, Except.toOption]
 
+/-! ## NMTranControlStream.get_records: problem numbering -/
+
+/-- `get_records` returns records of the requested name only, in stream order. -/
+theorem get_records_sublist (recs : List Rec) (name : String) (p : Int) :
+    (getRecords recs name p).Sublist recs ∧ ∀ r ∈ getRecords recs name p, r.name = name :=
+  getRecordsGo_filter name p recs (-1)
+
+/-- Records standing before the first `$PROBLEM` (e.g. `$SIZES`) belong to no problem:
+    for every problem number ≥ 0 `get_records` behaves as if they were absent. -/
+theorem get_records_ignores_pre_problem (a b : List Rec) (name : String) (p : Int) (hp : 0 ≤ p)
+    (ha : ∀ r ∈ a, (r.name == "PROBLEM") = false) :
+    getRecords (a ++ b) name p = getRecords b name p :=
+  getRecordsGo_pre name p hp a ha b
+
+example : getRecords [⟨"SIZES", 0⟩, ⟨"PROBLEM", 1⟩, ⟨"SIZES", 2⟩, ⟨"THETA", 3⟩, ⟨"PROBLEM", 4⟩, ⟨"THETA", 5⟩] "SIZES" 0
+    = [⟨"SIZES", 2⟩] := by decide
+example : getRecords [⟨"SIZES", 0⟩, ⟨"PROBLEM", 1⟩, ⟨"THETA", 3⟩, ⟨"PROBLEM", 4⟩, ⟨"THETA", 5⟩] "THETA" 1
+    = [⟨"THETA", 5⟩] := by decide
+
 /-! ## NMTranControlStream record operations: frame -/
 
 /-- `insert_record` only adds: the result is the old tuple with the new record at one index. -/
